@@ -1,12 +1,16 @@
 #!/usr/bin/env bash
 # tools/run_seeded.sh [names...] : every confirmed seeded change against every check;
 # appends to /verif/seeded/results.txt. Uses its own scratch worktree and target directory.
+# work from a snapshot of /verif, so that editing the sources meanwhile does not disturb the batch
+SNAP="/tmp/verif-snap-$$"; rm -rf "$SNAP"; mkdir -p "$SNAP"
+rsync -a --exclude target --exclude .git --exclude replays /verif/ "$SNAP/"
+trap 'rm -rf "$SNAP"' EXIT
 export MUT_WT=/tmp/aisverif-seed MUT_TARGET=/tmp/aisverif-seed-target
 OUT=/verif/seeded/results.txt
 names=("$@"); [ ${#names[@]} -eq 0 ] && names=($(ls -d /verif/seeded/*/ | xargs -n1 basename))
 for name in "${names[@]}"; do
   d="/verif/seeded/$name/patch.diff"; [ -f "$d" ] || continue
   echo "== $name" | tee -a "$OUT"
-  /verif/tools/run_mutant.sh "$d" C01 C02 C05 C06 C17 C18 C20 2>&1 | cut -c1-260 | tee -a "$OUT"
+  "$SNAP/tools/run_mutant.sh" "$d" C01 C02 C05 C06 C17 C18 C20 2>&1 | cut -c1-260 | tee -a "$OUT"
 done
-/verif/tools/run_mutant.sh --clean
+"$SNAP/tools/run_mutant.sh" --clean
